@@ -134,52 +134,66 @@ def parseWavelengthFact (v : Values) (s : State) : Except Err State := do
 
 def isNumeric (s : Str) : Bool := !s.isEmpty && s.all isDigit
 
+/-- one 16-character field of an observation line: `_float` of value, LLI and signal strength -/
+def obsStep (acc : Except Err (Col × Col × Col)) (f : String × Str) : Except Err (Col × Col × Col) := do
+  let (o, c, g) ← acc
+  let w := ljust 16 f.2
+  let val ← floatOpt (Text.slice 0 14 w)
+  let lli ← floatOpt (Text.slice 14 15 w)
+  let snr ← floatOpt (Text.slice 15 16 w)
+  pure (o ++ [val], c ++ [lli], g ++ [snr])
+
+/-- `_parse_observation` after the fields of the line are read: the satellite is complete when at least
+`num_obstypes` values are collected, otherwise they are kept in the cache -/
+def afterLine (e : EpochInfo) (o c g : Col) (s : State) : Except Err State := do
+  let n ← match s.metaD.get [key "num_obstypes"] with
+    | some (.int i) => pure i
+    | _ => throw .other
+  if (o.length : Int) ≥ n then do
+    let sats ← req s.cache.satList
+    match sats with
+    | [] => throw .other
+    | sat :: rest =>
+      let sy ← req (sat.head?.map fun ch => [ch])
+      let num ← pyInt (sat.drop 1)
+      let types ← match s.metaD.get [key "obstypes"] with
+        | some (.list l) => pure l
+        | _ => throw .other
+      let d1 ← appendAll s.data ((types.zip (o.zip (c.zip g))).map fun (t, (a, (b, z))) => (t, a, b, z))
+      let station ← match s.metaD.get [key "marker_name"] with
+        | some (.text t) => pure (lower t)
+        | _ => throw .other
+      pure { s with data := d1.appendRow e station sy sat (fmtInt num),
+                    cache := { s.cache with satList := some rest, obsValues := none, cycleSlip := none, signalStrength := none } }
+  else pure { s with cache := { s.cache with obsValues := some o, cycleSlip := some c, signalStrength := some g } }
+
 /-- `_parse_observation` -/
 def parseObservation (v : Values) (s : State) : Except Err State := do
   let e ← req s.cache.epoch
   match e.obsSec with
   | none => pure s
   | some _ =>
-    let step (acc : Except Err (Col × Col × Col)) (f : String × Str) : Except Err (Col × Col × Col) := do
-      let (o, c, g) ← acc
-      let w := ljust 16 f.2
-      let val ← floatOpt (Text.slice 0 14 w)
-      let lli ← floatOpt (Text.slice 14 15 w)
-      let snr ← floatOpt (Text.slice 15 16 w)
-      pure (o ++ [val], c ++ [lli], g ++ [snr])
-    let (o, c, g) ← (fieldsWithPrefix v "obs_").foldl step
+    let (o, c, g) ← (fieldsWithPrefix v "obs_").foldl obsStep
       (pure (s.cache.obsValues.getD [], s.cache.cycleSlip.getD [], s.cache.signalStrength.getD []))
-    let n ← match s.metaD.get [key "num_obstypes"] with
-      | some (.int i) => pure i
-      | _ => throw .other
-    if (o.length : Int) ≥ n then do
-      let sats ← req s.cache.satList
-      match sats with
-      | [] => throw .other
-      | sat :: rest =>
-        let sy ← req (sat.head?.map fun ch => [ch])
-        let num ← pyInt (sat.drop 1)
-        let types ← match s.metaD.get [key "obstypes"] with
-          | some (.list l) => pure l
-          | _ => throw .other
-        let d1 ← appendAll s.data ((types.zip (o.zip (c.zip g))).map fun (t, (a, (b, z))) => (t, a, b, z))
-        let station ← match s.metaD.get [key "marker_name"] with
-          | some (.text t) => pure (lower t)
-          | _ => throw .other
-        pure { s with data := d1.appendRow e station sy sat (fmtInt num),
-                      cache := { s.cache with satList := some rest, obsValues := none, cycleSlip := none, signalStrength := none } }
-    else pure { s with cache := { s.cache with obsValues := some o, cycleSlip := some c, signalStrength := some g } }
+    afterLine e o c g s
 
 def blankObsValues : Values := [("obs_1", []), ("obs_2", []), ("obs_3", []), ("obs_4", []), ("obs_5", [])]
 
-/-- satellite identifiers of a 36-column list: `sat[0].replace(" ","G") + sat[1].replace(" ","0") + sat[2]` -/
-def satsOf (satList : Str) : Except Err (List Str) :=
-  (List.range ((satList.length + 2) / 3)).foldlM (fun acc i =>
-    let sat := rstrip (Text.slice (3 * i) (3 * i + 3) satList)
-    match sat with
-    | [] => pure acc
-    | [a, b, c] => pure (acc ++ [[if a = ' ' then 'G' else a, if b = ' ' then '0' else b, c]])
-    | _ => throw .other) []
+/-- the satellite as the parser names it: `sat[0].replace(" ","G") + sat[1].replace(" ","0") + sat[2]` -/
+def normSat3 (a b c : Char) : Str := [if a = ' ' then 'G' else a, if b = ' ' then '0' else b, c]
+
+/-- `for i in range(0, len(sat_list), 3): sat = sat_list[i:i+3].rstrip(); …`, three columns at a time -/
+def satsOfAux : Nat → Str → List Str → Except Err (List Str)
+  | 0, _, acc => pure acc
+  | fuel + 1, s, acc =>
+    if s.isEmpty then pure acc else
+    match rstrip (s.take 3) with
+    | [] => satsOfAux fuel (s.drop 3) acc
+    | [a, b, c] => satsOfAux fuel (s.drop 3) (acc ++ [normSat3 a b c])
+    | _ => throw .other
+
+/-- satellite identifiers of a 36-column list -/
+def satsOf (satList : Str) : Except Err (List Str) := satsOfAux satList.length satList []
 
 /-- `_parse_observation_epoch` (every line of the observation block that is not labelled an observation line) -/
 def parseObservationEpoch (v : Values) (s : State) : Except Err State := do
